@@ -173,6 +173,11 @@ impl Sink {
         c
     }
 
+    /// a fresh case number for an event that is not announced through begin_case
+    pub fn next_case(&self) -> u64 {
+        self.case.fetch_add(1, Ordering::SeqCst) + 1
+    }
+
     pub fn end_case(&self) {
         self.started.store(0, Ordering::SeqCst);
     }
